@@ -301,7 +301,25 @@ def c02(run):
     law_pipeline(run, "C02", ["any"], 12 if run.tier == "thorough" else 10, classify_c02)
 
 
+def c17(run):
+    run.assumptions += ["the fault catalogue spec/frozen/faults.json; candidates that do not fail in their class on this tree are dropped by calibration and listed in evidence",
+                        "valid filler rules never match the fixed word, so a runtime fault fires at its own rule",
+                        "TLC enumerates shapes, positions and faults and predicts the reported fault from the pipeline's phase order"]
+    _, out = run_harness(["faults", "x"])
+    counts = json.loads([l for l in out.split("\n") if l.startswith("FAULTS ")][0][7:])
+    env = dict(run.known_env(), NSYN=counts["syn"], NLATE=counts["late"], NRUN=counts["run"], NWORD=counts["words"], NALIAS=counts["alias"])
+    if min(counts["syn"], counts["run"], counts["words"], counts["alias"]) < 3:
+        raise ToolError("fault catalogue collapsed under calibration: %s" % counts)
+    res = run_tlc("GEN_C17", "gen/GEN_C17.tla", "gen/GEN_C17_%s.cfg" % run.tier, env=env, consumer=[HARNESS, "replay", "C17"], timeout=3000, workers=6)
+    run.add_tlc("GEN_C17", res, "fault enumeration: TLC enumerates (project shape, position, fault) - thorough: also pairs of faults with the one the phase order says is reported; "
+                                "the harness plants them in an otherwise valid project, calls run, formats the error under catch_unwind and checks location and caret span")
+    run.cov["rule"] = ("every fault of the calibrated catalogue (%d syntax, %d runtime, %d word, %d alias) at every (group, line) of every project shape within the bound; "
+                       "thorough adds a seeded 1/97 of all ordered pairs of faults; every case is non-trivial (an error must be reported)" % (counts["syn"] + counts["late"], counts["run"], counts["words"], counts["alias"]))
+    run.cov["exhaustive"] = True
+
+
 PROPS = {
+    "C17": (c17, "fault_enumeration"),
     "C02": (c02, "model_checking"),
     "C06": (c06, "model_checking"),
     "C07": (c07, "model_checking"),
